@@ -230,7 +230,21 @@ type Branch struct {
 func (g *Graph) Branches() []Branch {
 	var out []Branch
 	for _, b := range g.Blocks {
-		if len(b.Succs) != 2 || len(b.Nodes) == 0 {
+		if len(b.Succs) != 2 {
+			continue
+		}
+		// go/cfg does not record the case types of a type switch as nodes: rebuild the branch from the clause
+		if b.Succs[0].Kind == cfg.KindSwitchCaseBody {
+			if cc, ok := b.Succs[0].Stmt.(*ast.CaseClause); ok {
+				if ts, isTS := g.caseOf[cc].(*ast.TypeSwitchStmt); isTS && len(cc.List) == 1 {
+					out = append(out, Branch{B: b, Cond: cc.List[0], TypeSwitch: ts, IsCase: true})
+					continue
+				} else if isTS {
+					continue
+				}
+			}
+		}
+		if len(b.Nodes) == 0 {
 			continue
 		}
 		last := b.Nodes[len(b.Nodes)-1]
